@@ -131,7 +131,7 @@ package js
 //@   requires[T] l.r.start == l.r.pos
 //@   ensures[T,C02] @tile: result0 != ErrorToken ==> sameMem(result1, l.r.buf[old(l.r.pos):l.r.pos]) && cap(result1) == len(result1) && len(result1) > 0 && l.r.start == l.r.pos
 //@   ensures[T,C02] @errtok: result0 == ErrorToken && result1 != nil ==> sameMem(result1, l.r.buf[old(l.r.pos):l.r.pos]) && cap(result1) == len(result1) && l.r.start == l.r.pos
-//@   ensures[T,C02] @frame: sameBytes()
+//@   ensures[T,C02] @frame: sameBytesExcept(0, 0)
 
 //@ func Lexer.Err
 //@   requires[S] l != nil && l.r != nil && bufInv(l.r)
